@@ -199,6 +199,7 @@ def run_tlc(module, cfg, name, workers=None, timeout=600, simulate=None, depth=N
     cmd = ["java"] + jopts + ["-cp", TLA_JAR, "tlc2.TLC",
                               "-workers", str(workers or min(NCPU, 8)),
                               "-metadir", os.path.join(wdir, "md"),
+                              "-noGenerateSpecTE",
                               "-config", cfgp]
     if simulate:
         cmd += ["-simulate", "num=%d" % simulate]
